@@ -222,6 +222,17 @@ var allAPI = func() []apiCall {
 		p, e := rjson.DecodeUint(d, &v)
 		return p, e, true
 	})
+	add("TokenType.String", func(d []byte, nb, fb, lb *rjson.Buffer, vr *rjson.ValueReader) (int, error, bool) {
+		t, _, _ := rjson.NextTokenType(d)
+		_ = t.String()
+		for _, b := range d {
+			_ = rjson.TokenType(b).String()
+			if len(d) > 64 {
+				break
+			}
+		}
+		return 0, nil, false
+	})
 	add("StdLibCompatibleString", func(d []byte, nb, fb, lb *rjson.Buffer, vr *rjson.ValueReader) (int, error, bool) {
 		rjson.StdLibCompatibleString(string(d))
 		return 0, nil, false
